@@ -156,6 +156,7 @@ class Kernel(object):
         self.current = None
         self.harness_error = None
         self.probe_hooks = []     # callables(kernel, thread, label) run at traced yield points
+        self.choice_log = None    # set to [] to record (step, alternative tids) at every real choice point
 
     # ------------------------------------------------------------ threads
     def me(self):
@@ -288,6 +289,8 @@ class Kernel(object):
             default = cur
         else:
             default = runnable[0]
+        if self.choice_log is not None and len(runnable) > 1:
+            self.choice_log.append((self.step, [t.tid for t in runnable if t is not default]))
         pick = self.sched.pick(self, cur, runnable, label)
         if pick is None:
             pick = default
